@@ -91,6 +91,9 @@ macro_rules! arith {
 
             (A::Date(a), A::Interval(b)) => A::new_date(binary_op(a.as_ref(), b.as_ref(), |a, b| *a $op *b)),
 
+            // the untyped NULL (`a + NULL`)
+            (A::Null(a), _) | (_, A::Null(a)) => A::Null(a.clone()),
+
             _ => return Err(ConvertError::NoBinaryOp(stringify!($name).into(), self.type_string(), other.type_string())),
         })
         }
@@ -145,6 +148,9 @@ macro_rules! cmp {
             (A::Interval(a), A::Interval(b)) => binary_op(a.as_ref(), b.as_ref(), |a, b| a $op b),
             (A::Blob(a), A::Blob(b)) => binary_op(a.as_ref(), b.as_ref(), |a, b| a $op b),
 
+            // the untyped NULL (`a = NULL`): unknown
+            (A::Null(a), _) | (_, A::Null(a)) => (0..a.len()).map(|_| None::<bool>).collect(),
+
             _ => return Err(ConvertError::NoBinaryOp(stringify!($name).into(), self.type_string(), other.type_string())),
         })))
         }
@@ -187,8 +193,18 @@ impl ArrayImpl {
         self.unchecked_rem(&other)
     }
 
+    /// A boolean operand of AND / OR or a filter / join condition: a BOOLEAN array, or the untyped
+    /// NULL (`NULL AND p`, `WHERE NULL`), which is unknown for every row.
+    pub fn as_bool_operand(&self) -> Option<Arc<BoolArray>> {
+        match self {
+            A::Bool(a) => Some(a.clone()),
+            A::Null(a) => Some(Arc::new((0..a.len()).map(|_| None::<bool>).collect())),
+            _ => None,
+        }
+    }
+
     pub fn and(&self, other: &Self) -> Result {
-        let (A::Bool(a), A::Bool(b)) = (self, other) else {
+        let (Some(a), Some(b)) = (self.as_bool_operand(), other.as_bool_operand()) else {
             return Err(ConvertError::NoBinaryOp(
                 "and".into(),
                 self.type_string(),
@@ -204,7 +220,7 @@ impl ArrayImpl {
     }
 
     pub fn or(&self, other: &Self) -> Result {
-        let (A::Bool(a), A::Bool(b)) = (self, other) else {
+        let (Some(a), Some(b)) = (self.as_bool_operand(), other.as_bool_operand()) else {
             return Err(ConvertError::NoBinaryOp(
                 "or".into(),
                 self.type_string(),
